@@ -150,5 +150,17 @@ def run_case(case, ctx):
             # central differences are exact for multilinear functions up to rounding
             if not np.allclose(dN[d], fd, rtol=1e-8, atol=1e-9 / size[d]):
                 raise Violation("shape-function-derivative-is-not-the-gradient", axis=d, point=p, got=dN[d], fd=fd)
+    # --- instances are independent: customising one domain's local numbering table in place (the docstring allows users to
+    # override it) must not leak into domains constructed afterwards
+    try:
+        dom.node_numbering.reverse()
+    except AttributeError:
+        pass
+    dom2 = pym.DomainDefinition(nx, ny, nz, unitx=size[0], unity=size[1], unitz=size[2])
+    require(np.array_equal(np.asarray(dom2.conn), conn), "new-domain-inherits-customised-numbering-of-another-instance")
+    N0 = np.asarray(dom2.eval_shape_fun(np.asarray(nn[0]) * size / 2 * np.array([1, 1, 1 if dim == 3 else 0])))
+    e0 = np.zeros(2 ** dim)
+    e0[0] = 1
+    require(np.allclose(N0, e0, atol=1e-12), "new-domain-shape-functions-follow-another-instance's-numbering")
     return {"key": f"{nx}x{ny}x{nz}", "nontrivial": nel >= 2,
             "obs": {"nel": nel, "nnodes": nnod, "size": size, "conn0": conn[0], "points": len(pts)}}
